@@ -23,6 +23,10 @@ def run(ctx):
     games = posgen.playouts(model, ctx.rng, fens, 2 if q else 3)
     starts = [posgen.START] * (ngames // 2) + [ctx.rng.choice(fens) for _ in range(ngames // 2)]
     games += posgen.playouts(model, ctx.rng, starts, 80 if q else 160)
+    pins = posgen.filter_valid(model, posgen.pin_positions(ctx.rng, 6000 if q else 60000))
+    games += [(f, []) for f in pins]
+    games += posgen.all_moves_games(model, posgen.filter_valid(model, posgen.combo_positions(ctx.rng, 40 if q else 400)))
+    ctx.notes['king_ray_template_positions'] = len(pins)
     nobs, nviol = diff_games(ctx, "g_legal", games, "legal move list differs from the rules", impl, model)
     styles = {}
     ctx.cov["rule"] = ("positions: %d constructed placements (templates: pins, en passant next to kings/sliders, castling, promotions, "
